@@ -111,12 +111,15 @@ type world struct {
 	pool   *hx.Pool
 	m1, m2 *openfgav1.AuthorizationModel
 	memo   sync.Map // backend|store|events -> []string (transcript of the store in the restricted history)
+
+	refModels []*openfgav1.AuthorizationModel // the four texts of the cross-store reference part (refs.go)
 }
 
 type caseT struct {
 	Backend string   `json:"backend"`
 	History []string `json:"history"`
 	Hist    []int    `json:"hist"`
+	Refs    *refCase `json:"refs,omitempty"` // set: a case of the cross-store reference part (refs.go)
 }
 
 // result of one execution
@@ -505,6 +508,7 @@ func Run(o *core.Options) int {
 		"background storage calls (cache controller) carry no request mark: they are only required to name one of the two stores",
 		"a deviation is a verdict only if it shows in all 6 executions of the same history; otherwise it is listed under anomalies")
 	w := &world{r: r, m1: parser.MustTransformDSLToProto(m1DSL), m2: parser.MustTransformDSLToProto(m2DSL)}
+	w.refModels = refModels()
 	w.pool = hx.NewPool("c16")
 	defer w.pool.Close()
 
@@ -514,7 +518,15 @@ func Run(o *core.Options) int {
 			fmt.Println("replay:", err)
 			return 2
 		}
-		for i := 0; i < 5; i++ {
+		for i := 0; i < 5 && c.Refs != nil; i++ {
+			out, _ := w.runRefs(*c.Refs)
+			r.Eval(1)
+			fmt.Printf("replay %d: %v deviations=%v\n", i, c.Refs.describe(), out.Devs)
+			for _, d := range out.Devs {
+				w.reportRefs(*c.Refs, d)
+			}
+		}
+		for i := 0; i < 5 && c.Refs == nil; i++ {
 			out := w.run(c.Backend, c.Hist)
 			r.Eval(1)
 			fmt.Printf("replay %d: %v deviations=%v\n", i, names(c.Hist), out.Devs)
@@ -605,6 +617,9 @@ func Run(o *core.Options) int {
 		per[c.backend] = map[string]any{"states": b.States, "transitions": b.Transitions, "states_per_depth": b.PerDepth, "max_events_per_store": c.perStore, "max_events_total": c.total}
 	}
 	r.Set("per_backend", per)
+	t0 := time.Now()
+	w.exploreRefs(o)
+	r.Set("wall_s/refs", time.Since(t0).Seconds())
 	e1.MergeSub(o, r, "tsres", "C16", "resolver_interleavings", "typesystem.MemoizedTypesystemResolverFunc over storagewrappers.NewCachedOpenFGADatastore over a memory datastore with scheduling points around its model operations (golang.org/x/sync/singleflight instrumented): 2-4 threads of resolve(store, latest|explicit id) and model writes on two stores that share model ids, every interleaving up to the preemption bound; every answer must be one a linearizable model store could give (no model of another store, the latest model right after a write returned), also for sequential resolves after all threads finished (cache poisoning)")
 	return r.Finish()
 }
